@@ -16,8 +16,11 @@ type ShortReadPool struct {
 	Inner lake.Pool
 	Rng   *Rng
 	Yield bool // perturb scheduling after reads
-	mu    sync.Mutex
-	Reads int64
+	// EOFWithData makes plain readers (GetReader) return the last bytes of a file TOGETHER with io.EOF,
+	// which io.Reader allows and readers such as zip entries do.
+	EOFWithData bool
+	mu          sync.Mutex
+	Reads       int64
 }
 
 func (p *ShortReadPool) GetSize(i int64) int64 { return p.Inner.GetSize(i) }
@@ -27,7 +30,63 @@ func (p *ShortReadPool) GetReader(i int64) (io.Reader, error) {
 	if err != nil {
 		return nil, err
 	}
+	if p.EOFWithData {
+		return &shortReader{p: p, r: &eofWithData{r: r}}, nil
+	}
 	return &shortReader{p: p, r: r}, nil
+}
+
+// eofWithData keeps one byte of look-ahead so that it knows when it hands out the last bytes.
+type eofWithData struct {
+	r     io.Reader
+	ahead []byte
+	done  bool
+}
+
+func (e *eofWithData) Read(b []byte) (int, error) {
+	if e.done {
+		return 0, io.EOF
+	}
+	if len(b) == 0 {
+		return 0, nil
+	}
+	n := copy(b, e.ahead)
+	e.ahead = e.ahead[n:]
+	for n < len(b) {
+		m, err := e.r.Read(b[n:])
+		n += m
+		if err == io.EOF {
+			e.done = true
+			if n == 0 {
+				return 0, io.EOF
+			}
+			return n, io.EOF
+		}
+		if err != nil {
+			return n, err
+		}
+		if m > 0 {
+			break
+		}
+	}
+	if len(e.ahead) == 0 {
+		var one [1]byte
+		for {
+			m, err := e.r.Read(one[:])
+			if m == 1 {
+				e.ahead = []byte{one[0]}
+				break
+			}
+			if err == io.EOF {
+				e.done = true
+				return n, io.EOF
+			}
+			if err != nil {
+				return n, err
+			}
+		}
+	}
+	return n, nil
 }
 func (p *ShortReadPool) GetReadSeeker(i int64) (io.ReadSeeker, error) {
 	r, err := p.Inner.GetReadSeeker(i)
